@@ -424,8 +424,18 @@ def main(argv=None):
             else:
                 known_lines.append("NOTE: known finding %s no longer reproduces on its witness (%s)" % (d["id"], detail if ok is None else "contract holds"))
 
-    n_obl = len(obligations)
-    n_proved = sum(1 for o in obligations.values() if o["status"] == "proved")
+    # shape-bounded contracts (fixed object-graph shape, symbolic leaves) are bounded stand-ins:
+    # reported separately, never counted in obligations/discharged
+    blabels = set(getattr(mod, "BOUNDED_LABELS", []))
+    sb = {k: o for k, o in obligations.items() if k.split("/")[1] in blabels} if blabels else {}
+    # labels may contain '/', so match by prefix as well
+    if blabels:
+        for k, o in obligations.items():
+            if any(k.startswith("%s/%s/" % (prop, lb)) for lb in blabels):
+                sb[k] = o
+    counted = {k: o for k, o in obligations.items() if k not in sb}
+    n_obl = len(counted)
+    n_proved = sum(1 for o in counted.values() if o["status"] == "proved")
     wall = time.time() - t0
     level = getattr(mod, "LEVEL", "proof")
     coverage = {
@@ -452,6 +462,12 @@ def main(argv=None):
                                  "time_s": round(o.get("time", 0.0), 2), "instances": o.get("instances")}
                                 for k, o in sorted(obligations.items(), key=lambda kv: -kv[1].get("tmax", kv[1].get("time", 0.0)))[:8]],
     }
+    if sb:
+        coverage["shape_bounded"] = {
+            "note": "bounded stand-in: real objects of a fixed small shape with symbolic integer/byte-sequence leaves; not counted in obligations/discharged",
+            "contracts": sorted(blabels), "obligations": len(sb),
+            "discharged": sum(1 for o in sb.values() if o["status"] == "proved"),
+            "bounds": getattr(mod, "BOUNDS_TEXT", "see grid of the listed contracts")}
     if bounded:
         b = dict(bounded)
         b.pop("violations", None)
@@ -486,8 +502,9 @@ def main(argv=None):
         led[args.tier] = sorted(obligations)
         json.dump(led, open(ledger_path, "w"), indent=0)
 
-    print("%s tier=%s: %d obligations, %d proved, %d refuted, %d undecided; %d paths; %d functions; solver %.1fs; wall %.1fs" % (
-        prop, args.tier, n_obl, n_proved, len(violations), len(undecided), paths, len(functions), solver_time, wall))
+    print("%s tier=%s: %d obligations, %d proved, %d refuted, %d undecided; %d paths; %d functions; solver %.1fs; wall %.1fs%s" % (
+        prop, args.tier, n_obl, n_proved, len(violations), len(undecided), paths, len(functions), solver_time, wall,
+        ("; shape-bounded (not counted): %d/%d" % (sum(1 for o in sb.values() if o["status"] == "proved"), len(sb))) if sb else ""))
     for l in known_lines:
         print(l)
     for l in vio_lines:
